@@ -180,7 +180,13 @@ class OpGen:
         if self.mixins and d.bool(0.3):
             mod, cls = d.choice(self.mixins)
             d.tag("op.mixin_field")
-            return f' @mixin(from: ".{mod}", import: "{cls}")'
+            text = f' @mixin(from: ".{mod}", import: "{cls}")'
+            others = [m for m in self.mixins if m != (mod, cls)]
+            if others and d.bool(0.25):
+                mod2, cls2 = d.choice(others)  # @mixin is repeatable: two classes on one field
+                text += f' @mixin(from: ".{mod2}", import: "{cls2}")'
+                d.tag("op.mixin_twice")
+            return text
         return ""
 
     def _mark(self):
